@@ -26,6 +26,9 @@ func c2StartReceiver(w *W, name string, s mangos.Socket, idle time.Duration) *c2
 	r.done = w.Do("receiver "+name, func() (interface{}, error) {
 		for {
 			m, err := s.RecvMsg()
+			if err == mangos.ErrRecvTimeout {
+				continue // idle: keep receiving until the socket is closed
+			}
 			if err != nil {
 				return nil, err
 			}
@@ -263,11 +266,13 @@ func c02Push(w *W) {
 	w.Settle()
 	accepted := map[string]bool{}
 	calls := c2Senders(w, s, kind, "P", nsend, nmsg, accepted)
+	victim := 0
 	if faulty {
+		victim = w.Choose(simrt.SProg, npull)
 		w.Sleep(time.Duration(w.Choose(simrt.SProg, 300)) * time.Microsecond)
 		w.Fault("close")
-		w.Op("pull0 closes mid-way")
-		pulls[0].Close()
+		w.Op("pull%d closes mid-way", victim)
+		pulls[victim].Close()
 	}
 	for _, c := range calls {
 		if !c.Wait(20 * time.Second) {
@@ -300,6 +305,45 @@ func c02Push(w *W) {
 			w.Failf("C02/duplicate:"+qkey, "%q was delivered to %d PULL peers", x, n)
 			return
 		}
+	}
+	if faulty && !w.Failed() {
+		// from here on every connection stays up: whatever is accepted now must
+		// reach exactly one of the surviving PULL peers
+		before := map[string]bool{}
+		for _, r := range recvs {
+			for _, x := range r.got {
+				before[x] = true
+			}
+		}
+		acc2 := map[string]bool{}
+		calls2 := c2Senders(w, s, kind, "Q", 1, nmsg, acc2)
+		for _, c := range calls2 {
+			if !c.Wait(20 * time.Second) {
+				w.WedgeCheck("C12")
+				w.Failf("C02/send-never-completes-after-peer-loss:"+kind, "%s: a PULL peer left earlier; %d peers are still connected and receiving, yet %s has not finished after 20s", kind, npull-1, c.Label)
+				return
+			}
+		}
+		w.Sleep(time.Second)
+		w.Settle()
+		cnt2 := map[string]int{}
+		for i, r := range recvs {
+			if i == victim {
+				continue
+			}
+			for _, x := range r.got {
+				if acc2[x] {
+					cnt2[x]++
+				}
+			}
+		}
+		for x := range acc2 {
+			if cnt2[x] != 1 {
+				w.Failf("C02/lost-after-peer-loss:"+kind, "%s: one PULL peer left earlier and the remaining %d connections stayed up; the message %q accepted afterwards was delivered %d times", kind, npull-1, x, cnt2[x])
+				return
+			}
+		}
+		w.Probe("delivery-after-peer-loss")
 	}
 	if !faulty {
 		var missing []string
